@@ -57,11 +57,10 @@ def build(extra_mods=(), force_assumed=()):
     chunks = ['// GENERATED from %s/src on every run by /verif/tools — do not edit\n' % REPO,
               '#![allow(unused_imports, unused_variables, dead_code, unused_mut, unused_assignments, non_snake_case, unused_parens, unused_braces)]\n',
               'use vstd::prelude::*;\n', reexports()]
-    iso = ''
-    for p in sorted(glob.glob(os.path.join(VERIF, 'spec', 'iso*.vrs'))):
-        iso += '// ---- %s\n' % os.path.basename(p) + open(p).read() + '\n'
+    iso_files = sorted(glob.glob(os.path.join(VERIF, 'spec', 'iso*.vrs')))
+    iso_names = [os.path.basename(p)[:-4] for p in iso_files]
     ISO_SLOT = len(chunks)
-    chunks.append(iso)
+    chunks.append('')
     mods = list(CORE_MODS) + list(extra_mods)
     insertion_only = True
     lost_all = []
@@ -127,7 +126,21 @@ def build(extra_mods=(), force_assumed=()):
             ghost += '\n// ---- ghost additions (G1) from spec/mod_%s.vrs\n' % m + open(gp).read()
         globs = ''.join('use crate::%s::*;\n' % o for o in mods if o != m)
         chunks.append('pub mod %s {\nuse vstd::prelude::*;\nuse crate::iso::*;\n%sverus! {\n%s\n%s\n}\n} // @endmod\n' % (m, globs, spliced, ghost))
-    chunks[ISO_SLOT] = 'pub mod iso {\nuse vstd::prelude::*;\nuse crate::*;\n%sverus! {\n%s\n}\n}\n' % (''.join('use crate::%s::*;\n' % o for o in mods), iso)
+    iso_chunks = []
+    # iso_gf (self-contained, compute-heavy) gets its own module so that it verifies in parallel; all other
+    # ISO files share one module (by(compute) must see through opaque table functions, which only works
+    # inside the defining module)
+    sep = [nm for nm in iso_names if nm in ('iso_gf',)]
+    main_text = ''
+    for p, nm in zip(iso_files, iso_names):
+        if nm in sep:
+            uses = ''.join('use crate::%s::*;\n' % o for o in mods)
+            iso_chunks.append('pub mod %s {\nuse vstd::prelude::*;\nuse crate::*;\n%sverus! {\n// ---- %s\n%s\n}\n}\n' % (nm, uses, os.path.basename(p), open(p).read()))
+        else:
+            main_text += '// ---- %s\n' % os.path.basename(p) + open(p).read() + '\n'
+    uses = ''.join('use crate::%s::*;\n' % o for o in mods) + ''.join('pub use crate::%s::*;\n' % o for o in sep)
+    iso_chunks.append('pub mod iso {\nuse vstd::prelude::*;\nuse crate::*;\n%sverus! {\n%s\n}\n}\n' % (uses, main_text))
+    chunks[ISO_SLOT] = ''.join(iso_chunks)
     d1_text = ''.join('pub assume_specification [<crate::%s::%s as Clone>::clone] (q: &crate::%s::%s) -> (r: crate::%s::%s)\n    ensures r == *q;\n' % (t['module'], t['d1_type'], t['module'], t['d1_type'], t['module'], t['d1_type']) for t in d1)
     chunks.append('verus! {\n' + d1_text + open(os.path.join(VERIF, 'spec', 'prelude.vrs')).read() + '\n}\nfn main() {}\n')
     text = ''.join(chunks)
